@@ -23,10 +23,25 @@ Last(s) == s[Len(s)]
 
 Nodes(g)       == 1..g.n
 InitSet(g)     == Range(g.init)
-InB(g, s)      == g.inb[s]
+IsTable(g)     == g.family \in {"", "table"}
+InB(g, s)      == IF IsTable(g) THEN g.inb[s] ELSE TRUE
 InitB(g)       == {s \in InitSet(g) : InB(g, s)}
+(* Arithmetic families (large graphs given by formulas; the same formulas are implemented by the
+   harness's TableModel): ordered successor list, 0 = ignored action *)
+FamilySucc(g, s) ==
+  CASE g.family = "affine" ->
+         LET i == s - 1 IN <<((g.params[1] * i + g.params[2]) % g.n) + 1, ((i + g.params[3]) % g.n) + 1>>
+    [] g.family = "grid" ->
+         LET w == g.params[1]  h == g.params[2]  i == s - 1  x == i % w  y == i \div w IN
+         <<IF x + 1 < w THEN y * w + x + 2 ELSE 0, IF y + 1 < h THEN (y + 1) * w + x + 1 ELSE 0>>
+    [] g.family = "tree" ->
+         <<IF 2 * s <= g.n THEN 2 * s ELSE 0, IF 2 * s + 1 <= g.n THEN 2 * s + 1 ELSE 0>>
+    [] g.family = "chainbush" ->
+         LET k == g.params[1] IN
+         IF s < k THEN <<s + 1>> ELSE IF s = k THEN [i \in 1..(g.n - k) |-> k + i] ELSE <<>>
+SuccList(g, s) == IF IsTable(g) THEN g.succ[s] ELSE FamilySucc(g, s)
 \* targets of the defined (non-ignored) transitions of s
-Defined(g, s)  == Range(g.succ[s]) \ {0}
+Defined(g, s)  == Range(SuccList(g, s)) \ {0}
 \* ... that stay inside the boundary
 SuccB(g, s)    == {t \in Defined(g, s) : InB(g, t)}
 SuccBF(g)      == [s \in Nodes(g) |-> SuccB(g, s)]
@@ -52,9 +67,13 @@ LayersFrom(sf, seen, frontier, acc) ==
 Layers(g) == LayersFrom(SuccBF(g), InitB(g), InitB(g), <<>>)
 DepthIn(layers, s) == CHOOSE d \in 1..Len(layers) : s \in layers[d]
 
+\* where a property's condition holds: an explicit list, or (big graphs) everywhere / nowhere / s % m = r
+SatAt(p, s) == IF "mode" \in DOMAIN p /\ p.mode # "list"
+               THEN CASE p.mode = "all" -> TRUE [] p.mode = "none" -> FALSE [] p.mode = "mod" -> s % p.m = p.r
+               ELSE s \in Range(p.sat)
 Sat(p) == Range(p.sat)
-Violated(g, p)  == \E s \in Reach(g) : s \notin Sat(p)
-Witnessed(g, p) == \E s \in Reach(g) : s \in Sat(p)
+Violated(g, p)  == \E s \in Reach(g) : ~SatAt(p, s)
+Witnessed(g, p) == \E s \in Reach(g) : SatAt(p, s)
 
 (***************************************************************************)
 (* An eventually-property has a counterexample iff some MAXIMAL in-boundary *)
@@ -62,7 +81,7 @@ Witnessed(g, p) == \E s \in Reach(g) : s \in Sat(p)
 (* or runs forever (in a finite graph: reaches a cycle) inside the non-sat  *)
 (* region.                                                                  *)
 (***************************************************************************)
-NonSat(g, p) == {s \in Nodes(g) : InB(g, s) /\ s \notin Sat(p)}
+NonSat(g, p) == {s \in Nodes(g) : InB(g, s) /\ ~SatAt(p, s)}
 EvRegion(g, p) ==
   LET ns == NonSat(g, p)
       sf == [s \in Nodes(g) |-> SuccB(g, s) \cap ns]
@@ -91,8 +110,8 @@ ValidPath(g, path) ==
 (* the action indices reported along a path really produce it *)
 ValidActs(g, path, acts) ==
   /\ Len(acts) + 1 = Len(path)
-  /\ \A i \in 1..Len(acts) : /\ acts[i] \in DOMAIN g.succ[path[i]]
-                             /\ g.succ[path[i]][acts[i]] = path[i + 1]
+  /\ \A i \in 1..Len(acts) : /\ acts[i] \in DOMAIN SuccList(g, path[i])
+                             /\ SuccList(g, path[i])[acts[i]] = path[i + 1]
 
 RepOf(g, s) == IF "rep" \in DOMAIN g /\ Len(g.rep) > 0 THEN g.rep[s] ELSE s
 
@@ -103,17 +122,17 @@ RepOf(g, s) == IF "rep" \in DOMAIN g /\ Len(g.rep) > 0 THEN g.rep[s] ELSE s
 (***************************************************************************)
 ValidWitness(g, p, path, sim) ==
   /\ ValidPath(g, path)
-  /\ CASE p.kind = "always"     -> Last(path) \notin Sat(p)
-       [] p.kind = "sometimes"  -> Last(path) \in Sat(p)
+  /\ CASE p.kind = "always"     -> ~SatAt(p, Last(path))
+       [] p.kind = "sometimes"  -> SatAt(p, Last(path))
        [] p.kind = "eventually" ->
-            /\ \A i \in 1..Len(path) : path[i] \notin Sat(p)
+            /\ \A i \in 1..Len(path) : ~SatAt(p, path[i])
             /\ \/ Terminal(g, Last(path))
                \/ sim /\ \E i \in 1..(Len(path) - 1) : RepOf(g, path[i]) = RepOf(g, Last(path))
 
 (* C13: number of states on a shortest path to a state witnessing p *)
 MinWitnessDepth(g, p) ==
   LET ls == Layers(g)
-      good(s) == IF p.kind = "always" THEN s \notin Sat(p) ELSE s \in Sat(p)
+      good(s) == IF p.kind = "always" THEN ~SatAt(p, s) ELSE SatAt(p, s)
       ds == {d \in 1..Len(ls) : \E s \in ls[d] : good(s)}
   IN  IF ds = {} THEN 0 ELSE CHOOSE d \in ds : \A e \in ds : d <= e
 
